@@ -447,7 +447,7 @@ func c15R1(c *Check, s *c15stats, la *LockAnalysis) {
 			}
 		}
 	}
-	c.Floor("C15.R1:map-field-users", len(pairs), 9)
+	c.Floor("C15.R1:map-field-users", len(pairs), 4)
 	for _, f := range []*types.Var{s.fTx, s.fRx} {
 		for _, fr := range fieldRefs(p.RepoFns, f) {
 			if c15freshRoot(fr.Addr, fr.Fn) {
